@@ -317,6 +317,13 @@ def noShift (c : Crs) : Bool :=
     | none => true
     | some ds => (ds.take 3).all (fun d => d.mant = 0) && (ds.drop 3).all (fun d => d.mant = 0))
 
+/-- the ellipsoid of `c` passes `compare_datums`' test against WGS84's (same `a`, `es` within 5e-11) without being
+WGS84's (known finding `wgs84name`) -/
+def nearWgs84Ellipsoid (c : Crs) : Bool :=
+  let es (a rf : Rat) : Rat := let b := (1 - 1 / rf) * a; (a * a - b * b) / (a * a)
+  let d := es c.a.toRat c.rf.toRat - es 6378137 (298257223563 / 1000000000)
+  c.a.toRat = 6378137 && c.rf.toRat ≠ 298257223563 / 1000000000 && decide (d ≤ 5 / 100000000000) && decide (-d ≤ 5 / 100000000000)
+
 def judgePair (lhs rhs : Tok) : String :=
   let desc := lhs.takeWhile (· ≠ "|")
   match parseCrs (desc.take 16) with
@@ -324,6 +331,7 @@ def judgePair (lhs rhs : Tok) : String :=
   | some (c, st) =>
     let cls := s!"pair-{kindTag c.kind}-{unitTag c.unit}" ++ (if noShift c then "-noshift" else "") ++ (if st.esri then "-esri" else "")
       ++ (if st.unitPos ≠ 0 || st.projLast || st.geogLast then "-reordered" else "") ++ (if c.dname ≠ 0 then "-nearname" else "")
+      ++ (if c.datum = .wgs84 && nearWgs84Ellipsoid c then "-wgs84name-nearWGS84ellipsoid" else "")
     let p4 := toProj4 c st
     let w := toWkt c st
     match rhs with
@@ -352,7 +360,15 @@ def judgePair (lhs rhs : Tok) : String :=
                     else if npp ≠ "t" || nww ≠ "t" then some s!"NewTransform-not-nil-for-Equal-references({npp},{nww})"
                     else if epw ≠ ewp then some s!"Equal-not-symmetric({epw},{ewp})"
                     else if npw ≠ epw then some s!"NewTransform-nil({npw})-but-Equal({epw})"
-                    else gridAgree (c.kind = .geog) (xrToFloat (some c.unit.toMeter)) (n.toNat?.getD 0) g
+                    else match gridAgree (c.kind = .geog) (xrToFloat (some c.unit.toMeter)) (n.toNat?.getD 0) g with
+                      | some f => some f
+                      | none =>
+                        -- second grid: to and from a reference with a 7-parameter datum (for a datum given by the name
+                        -- WGS84 the WKT side takes the two-hop route there, `C20_transform_route_wgs84`)
+                        match g.drop (14 * n.toNat?.getD 0) with
+                        | "GRID" :: n2 :: g2 =>
+                          (gridAgree (c.kind = .geog) (xrToFloat (some c.unit.toMeter)) (n2.toNat?.getD 0) g2).map fun f => "via-7-parameter-datum:" ++ f
+                        | _ => some "second-grid-missing"
                 | _, _ => some "nil-datum-after-Parse"
               | _, _ => some "unreadable-dump"
             | _, _ => some s!"definition-rejected(PROJ.4:{rp.headD "?"},WKT:{rw.headD "?"})"
